@@ -88,6 +88,26 @@ UNITS = {
                  why="retry budget: unchanged (1 000 000) unless the adversarial harness is running, then 3 (bounded stand-in for C18)"),
         ],
     },
+    "shm_now": {
+        "crate": "clock-bound-shm", "features": "writer",
+        "files": [("clock-bound-shm/src/verif_now.rs", "harness/clock-bound-shm/verif_now.rs")],
+        "edits": [child_mod("clock-bound-shm/src/lib.rs", "verif_now")],
+    },
+    "shm_layout": {
+        "crate": "clock-bound-shm", "features": "writer",
+        "gen": __import__("layout_gen").gen_shm,
+        "edits": [child_mod("clock-bound-shm/src/lib.rs", "verif_layout")],
+    },
+    "ffi_layout": {
+        "crate": "clock-bound-ffi", "features": None,
+        "gen": __import__("layout_gen").gen_ffi,
+        "edits": [child_mod("clock-bound-ffi/src/lib.rs", "verif_ffi")],
+    },
+    "client_conv": {
+        "crate": "clock-bound-client", "features": None,
+        "files": [("clock-bound-client/src/verif_client.rs", "harness/clock-bound-client/verif_client.rs")],
+        "edits": [child_mod("clock-bound-client/src/lib.rs", "verif_client")],
+    },
     "shm_header": {
         "crate": "clock-bound-shm", "features": "writer",
         "files": [("clock-bound-shm/src/verif_header.rs", "harness/clock-bound-shm/verif_header.rs")],
@@ -99,6 +119,20 @@ UNITS = {
         "edits": [child_mod_cfg("clock-bound-shm/src/lib.rs", "verif_search_compute", "verif_search")],
     },
     # ---- clock-bound-d ----------------------------------------------------------------------
+    "d_nolog": {
+        "crate": "clock-bound-d", "features": None,
+        "edits": [
+            Edit("clock-bound-d/src/%s" % f, "use tracing::{debug, error, info};\n", "replace",
+                 "#[cfg(not(kani))]\nuse tracing::{debug, error, info};\n" + NOLOG_MACROS,
+                 why="tracing macros make kani-compiler 0.68 panic; under cfg(kani) they are no-ops (arguments not evaluated)")
+            for f in ("shm_writer.rs", "chrony_poller.rs", "thread_manager.rs")
+        ],
+    },
+    "d_poller": {
+        "crate": "clock-bound-d", "features": None,
+        "files": [("clock-bound-d/src/verif_poller.rs", "harness/clock-bound-d/verif_poller.rs")],
+        "edits": [child_mod("clock-bound-d/src/chrony_poller.rs", "verif_poller")],
+    },
     "d_extract_search": {
         "crate": "clock-bound-d", "features": None,
         "files": [("clock-bound-d/src/verif_search_extract.rs", "harness/clock-bound-d/verif_search_extract.rs")],
@@ -112,12 +146,7 @@ UNITS = {
     "d_updater": {
         "crate": "clock-bound-d", "features": None,
         "files": [("clock-bound-d/src/verif_updater.rs", "harness/clock-bound-d/verif_updater.rs")],
-        "edits": [
-            Edit("clock-bound-d/src/shm_writer.rs", "use tracing::{debug, error, info};\n", "replace",
-                 "#[cfg(not(kani))]\nuse tracing::{debug, error, info};\n" + NOLOG_MACROS,
-                 why="tracing macros make kani-compiler 0.68 panic; under cfg(kani) they are no-ops (arguments not evaluated)"),
-            child_mod("clock-bound-d/src/shm_writer.rs", "verif_updater"),
-        ],
+        "edits": [child_mod("clock-bound-d/src/shm_writer.rs", "verif_updater")],
     },
 }
 
@@ -198,7 +227,9 @@ def dh(name, replayable=False, timeout=600, **kw):
     return d
 
 
-DGRP = {"kind": "kani", "crate": "clock-bound-d", "units": ["d_updater"], "modpath": "shm_writer::verif_updater"}
+DGRP = {"kind": "kani", "crate": "clock-bound-d", "units": ["d_nolog", "d_updater"], "modpath": "shm_writer::verif_updater"}
+PGRP = {"kind": "kani", "crate": "clock-bound-d", "units": ["d_nolog", "d_poller"], "modpath": "chrony_poller::verif_poller"}
+POL = "harness/clock-bound-d/verif_poller.rs"
 UPD_FUNCS = ["clock_bound_d::shm_writer::ShmUpdater::{new, write_clock_error_bound, process_clock_update, process_missing_clock_update}",
              "clock_bound_d::shm_writer::clock_state_fsm::{ShmClockState::default, FSMState::apply_chrony, FSMState::value, FSMTransition::transition x3}"]
 UPD_ASSUME = [A["tools"], A["weaver"],
@@ -230,14 +261,15 @@ PROPS = {
         "functions": UPD_FUNCS,
         "assumptions": UPD_ASSUME,
         "trusted": ["harness/clock-bound-d/verif_updater.rs (expected_record oracle)"],
-        "groups": [dict(DGRP, harnesses=[dh("c08_new_initial_state"), dh("c08_fsm_table"), dh("c08_update_step"), dh("c08_missing_step")])],
+        "groups": [dict(DGRP, harnesses=[dh("c08_new_initial_state"), dh("c08_fsm_table"), dh("c08_update_step"), dh("c08_missing_step"), dh("c08_dispatch", timeout=900)])],
     },
     "C09": {
         "functions": UPD_FUNCS,
         "assumptions": UPD_ASSUME + ["history quantifier closed by induction: base+step harness from a fresh updater, plus the absorption harness "
                                      "(two consecutive non-synchronised outcomes == the second alone, observably)"],
         "trusted": ["harness/clock-bound-d/verif_updater.rs (untrusted_record oracle)"],
-        "groups": [dict(DGRP, harnesses=[dh("c08_new_initial_state"), dh("c09_fresh_then_nonsync"), dh("c09_nonsync_absorbing")])],
+        "groups": [dict(DGRP, harnesses=[dh("c08_new_initial_state"), dh("c09_fresh_then_nonsync"), dh("c09_nonsync_absorbing")]),
+                   dict(PGRP, harnesses=[{"name": "c13_starts_outside_grace", "file": POL, "replayable": False, "tier": "quick", "timeout": 600}])],
     },
     "C19": {
         "functions": ["clock_bound_d (bin) main(): statement `let max_drift_ppb = match args.max_drift_rate {..};` (extracted verbatim, wrapped)",
@@ -260,7 +292,7 @@ PROPS = {
                         "f64::powi(2.0, n) == 2^n exactly (stubbed; Kani over-approximates powi)",
                         "update interval restricted to non-negative wire floats with exponent in [-10, 30] (interval < 2^29 s); age < 2^40 s"],
         "trusted": ["harness/clock-bound-d/verif_updater.rs (oracle: exact integer comparison of the age with 8 * interval)"],
-        "groups": [{"kind": "kani", "crate": "clock-bound-d", "units": ["d_updater"], "modpath": "shm_writer::verif_updater",
+        "groups": [{"kind": "kani", "crate": "clock-bound-d", "units": ["d_nolog", "d_updater"], "modpath": "shm_writer::verif_updater",
                     "harnesses": [dh("c10_from_u16", replayable=True)] + [
                         dh("c10_extract_status_e%s%d" % ("m" if e < 0 else "p", abs(e)),
                            obligations=["C10.extract.sync_only_if_leap", "C10.extract.sync_only_if_not_future",
@@ -325,6 +357,62 @@ PROPS = {
                    dict(SHM_READ_GRP, c_lib=POSIX, harnesses=[OPEN_H]),
                    dict(SHM_WRITE_GRP, harnesses=[sh("c16_segment_size", WR), sh("c16_write_then_fresh_snapshot_roundtrip", WR),
                                                   sh("c04_new_takeover_or_wipe", WR, replayable=False)])],
+    },
+    "C12": {
+        "functions": ["clock_bound_shm::ClockErrorBound::now", "clock_bound_d::chrony_poller::run_clock_error_bound_poller (one iteration)"],
+        "assumptions": [A["tools"], A["weaver"],
+                        "clock_gettime_safe replaced by a ghost clock handing out strictly increasing ticks and logging the clock id (its body is one libc::clock_gettime call)",
+                        "compute_bound_at replaced by a recorder in the now() harness (its contract is C05/C06/C14); monotonicity 'later reading => wider interval' is C05.lemma.monotone",
+                        "mpsc / DispatchBox replaced by recorders in the poller harness: DispatchBox::send and Receiver::recv_timeout are stubbed (assumed: delivery of what was sent); the DispatchBox is an "
+                        "all-zero value that is never looked into; ChronyOperations is a harness implementation that logs the tick of the query",
+                        "one loop iteration is verified (the loop body carries no state across iterations except `poller`)"],
+        "trusted": ["harness/clock-bound-shm/verif_now.rs", "harness/clock-bound-d/verif_poller.rs"],
+        "groups": [
+            {"kind": "kani", "crate": "clock-bound-shm", "units": ["shm_now"], "modpath": "verif_now",
+             "harnesses": [sh("c12_now_reads_realtime_then_monotonic", "harness/clock-bound-shm/verif_now.rs", replayable=False)]},
+            dict(PGRP, harnesses=[{"name": "c13_poller_iteration", "file": POL, "replayable": False, "tier": "quick", "timeout": 900}]),
+            {"kind": "verus", "gen": "compute", "obligations": [r"C05\.lemma\.monotone", r"C05\.compute\.exact"], "rlimit": 30, "float_dependent": FLOAT_DEP,
+             "float_shape_clause": "C05.compute.exact", "float_dependent_if_shape_lost": ["C05.compute.ordered", "C14.compute.no_panic"], "pair": COMPUTE_SEARCH},
+        ],
+    },
+    "C13": {
+        "functions": ["clock_bound_d::chrony_poller::{run_clock_error_bound_poller (one iteration), ClockErrorBoundPoller::default, "
+                      "<ClockErrorBoundPoller as ChronyOperations>::{get_tracking, is_within_grace_period}}"],
+        "assumptions": [A["tools"], A["weaver"],
+                        "Instant::now replaced by a ghost monotone clock; an Instant is manufactured from its linux representation {tv_sec: i64, tv_nsec: u32} (size checked); "
+                        "Instant arithmetic (checked_sub, elapsed, duration_since) is the real std code",
+                        "blocking_query_uds (network I/O) replaced by its contract: an io error, a Tracking reply or another reply",
+                        "get_phc_error_bound_from_path (file I/O) replaced by Ok(v) | Err",
+                        "mpsc / DispatchBox recorders as for C12; one loop iteration; the history quantifier follows because the grace flag is a function of the last-answer stamp only "
+                        "(C13.get_tracking.* + C13.grace.*) and the iteration contract holds for every value of that flag"],
+        "trusted": ["harness/clock-bound-d/verif_poller.rs"],
+        "groups": [dict(PGRP, harnesses=[{"name": n, "file": POL, "replayable": False, "tier": "quick", "timeout": 900}
+                                         for n in ("c13_poller_iteration", "c13_grace_period_law", "c13_starts_outside_grace",
+                                                   "c13_get_tracking_stamps_only_good_answers")])],
+    },
+    "C17": {
+        "functions": ["#[repr(C)] clock_bound_shm::{ShmHeader, ClockErrorBound, ClockStatus}", "clock_bound_shm::writer::ShmWriter::segment_size",
+                      "#[repr(C)] clock_bound_ffi::{clockbound_err_kind, clockbound_err, clockbound_clock_status, clockbound_now_result}",
+                      "clock_bound_ffi::{<clockbound_clock_status as From<ClockStatus>>::from, <clockbound_err as From<ShmError>>::from}",
+                      "clock_bound_client::<ClockBoundError as From<ShmError>>::from", "clock-bound-ffi/include/clockbound.h (CBMC)"],
+        "assumptions": [A["tools"], A["weaver"], A["target"],
+                        "spec/layout.json was transcribed by hand from docs/PROTOCOL.md and clockbound.h (one table, both sides checked against it)",
+                        "native endianness holds by construction: the record is stored by a plain ptr::write of the repr(C) struct (checked: field bytes re-read with from_ne_bytes)",
+                        "'same interval at the same moment' for two separate client calls is not expressible as a contract: both clients are the same ShmReader::snapshot + ClockErrorBound::now, "
+                        "what differs is the conversion layer, which is proved total and kind/errno preserving; the thin wrappers clockbound_now / ClockBoundClient::now are unverified glue"],
+        "trusted": ["spec/layout.json", "tools/layout_gen.py"],
+        "groups": [
+            {"kind": "kani", "crate": "clock-bound-shm", "units": ["shm_layout"], "modpath": "verif_layout",
+             "harnesses": [sh("c17_segment_layout", "GEN", obligations=None), sh("c17_status_encoding_in_memory", "GEN", obligations=None)]},
+            dict(SHM_HDR_GRP, harnesses=[sh("c16_header_layout", HD)]),
+            dict(SHM_WRITE_GRP, harnesses=[sh("c16_segment_size", WR)]),
+            {"kind": "kani", "crate": "clock-bound-ffi", "units": ["ffi_layout"], "modpath": "verif_ffi",
+             "harnesses": [sh("c17_ffi_layout", "GEN", obligations=None), sh("c17_ffi_status_conversion", "GEN", obligations=None),
+                           sh("c14_ffi_error_conversion", "GEN", obligations=None)]},
+            {"kind": "kani", "crate": "clock-bound-client", "units": ["client_conv"], "modpath": "verif_client",
+             "harnesses": [sh("c14_client_error_conversion", "harness/clock-bound-client/verif_client.rs", replayable=False)]},
+            {"kind": "cbmc"},
+        ],
     },
     "C18": {
         "functions": ["clock_bound_shm::reader::ShmReader::snapshot"],
